@@ -120,6 +120,36 @@ func pathElem(t *rapid.T) string {
 	}
 }
 
+// pure restricts Soup to operators that the documentation does not describe as
+// updating, deleting or in-place (C08's vocabulary); it also leaves out the
+// operators C08/C18 exclude (env, load, now, shuffle, eval, split_doc).
+var pure bool
+
+var impure = map[string]bool{"now": true, "shuffle": true, "sort_keys(.)": true, "sort_keys(..)": true, "split_doc": true, "explode(.)": true, "envsubst": true, "error": true,
+	"map_values": true, "del": true, "delpaths": true, "eval": true, "sort_keys": true, "explode": true, "load_str": true, "load": true, "load_xml": true, "load_props": true, "load_base64": true,
+	"from_unix|tz": true, "tz": true, "array_to_map": true, "to_unix": true, "from_unix": true, "format_datetime": true, "filename": true, "file_index": true, "fi": true,
+	"=": true, "|=": true, "+=": true, "-=": true, "*=": true, "*=+": true, "=c": true, "|=c": true, "sub": false, "with": true, "setpath": true, "with_dtf": true}
+
+func pick(t *rapid.T, pool []string, label string) string {
+	if !pure {
+		return rapid.SampledFrom(pool).Draw(t, label)
+	}
+	var ok []string
+	for _, p := range pool {
+		if !impure[p] {
+			ok = append(ok, p)
+		}
+	}
+	return rapid.SampledFrom(ok).Draw(t, label)
+}
+
+// SoupPure generates an assignment-free expression over the read-only vocabulary.
+func SoupPure(t *rapid.T, depth int) string {
+	pure = true
+	defer func() { pure = false }()
+	return Soup(t, depth)
+}
+
 // Soup generates an expression over the entire vocabulary.
 func Soup(t *rapid.T, depth int) string {
 	if depth <= 0 {
@@ -127,22 +157,22 @@ func Soup(t *rapid.T, depth int) string {
 		case 0:
 			return lit(t)
 		case 1:
-			return rapid.SampledFrom(Nullary).Draw(t, "n0")
+			return pick(t, Nullary, "n0")
 		default:
 			return pathElem(t)
 		}
 	}
 	switch rapid.IntRange(0, 19).Draw(t, "prod") {
 	case 0, 1, 2, 3:
-		op := rapid.SampledFrom(BinOps).Draw(t, "bop")
+		op := pick(t, BinOps, "bop")
 		return Soup(t, depth-1) + " " + op + " " + Soup(t, depth-1)
 	case 4, 5:
 		return Soup(t, depth-1) + " | " + Soup(t, depth-1)
 	case 6, 7:
-		f := rapid.SampledFrom(Unary).Draw(t, "f1")
+		f := pick(t, Unary, "f1")
 		return f + "(" + Soup(t, depth-1) + ")"
 	case 8:
-		f := rapid.SampledFrom(Binary2).Draw(t, "f2")
+		f := pick(t, Binary2, "f2")
 		return f + "(" + Soup(t, depth-1) + "; " + Soup(t, depth-1) + ")"
 	case 9:
 		return "[" + Soup(t, depth-1) + "]"
@@ -162,7 +192,11 @@ func Soup(t *rapid.T, depth int) string {
 		return "(" + Soup(t, depth-1) + ")"
 	case 12:
 		v := rapid.SampledFrom([]string{"x", "y", "i"}).Draw(t, "var")
-		kw := rapid.SampledFrom([]string{"as", "as", "ref"}).Draw(t, "askw")
+		kws := []string{"as", "as", "ref"}
+		if pure {
+			kws = kws[:2]
+		}
+		kw := rapid.SampledFrom(kws).Draw(t, "askw")
 		return Soup(t, depth-1) + " " + kw + " $" + v + " | " + Soup(t, depth-1)
 	case 13:
 		v := rapid.SampledFrom([]string{"x", "i"}).Draw(t, "var")
@@ -170,18 +204,21 @@ func Soup(t *rapid.T, depth int) string {
 	case 14:
 		return pathElem(t) + pathElem(t) + pathElem(t)
 	case 15:
+		if pure {
+			return pick(t, Nullary, "n0")
+		}
 		a := rapid.SampledFrom([]string{"style", "tag", "anchor", "alias", "line_comment", "head_comment", "foot_comment", "comments"}).Draw(t, "attr")
 		op := rapid.SampledFrom([]string{"=", "|="}).Draw(t, "aop")
 		return Soup(t, depth-1) + " " + a + " " + op + " " + Soup(t, depth-1)
 	case 16:
-		return rapid.SampledFrom(Nullary).Draw(t, "n0") + pathElem(t)
+		return pick(t, Nullary, "n0") + pathElem(t)
 	case 17:
 		return Soup(t, depth-1) + pathElem(t)
 	case 18:
 		// string with interpolation
 		return `"pre\(` + Soup(t, depth-1) + `)post"`
 	default:
-		return rapid.SampledFrom(Nullary).Draw(t, "n0")
+		return pick(t, Nullary, "n0")
 	}
 }
 
